@@ -122,6 +122,15 @@ def classify(clause, wit):
             and "<" in m.group(1):
         # the only difference is the fresh spelling of a parameter left inside a template argument list
         return "RenamingVisibleThroughUnsubstitutedNestedParam"
+    if clause.startswith("renaming") and m and "<" in m.group(2):
+        # consequence of C02-qualified-arg-last-component: in the original a first-level template argument `ns::P`
+        # (P a parameter's spelling, not the parameter) was rewritten, in the renamed variant it is (correctly) kept
+        params = re.findall(r"(?:template <|,) (\w+)(?= =| ,| >)", wit.get("text", ""))
+        for p_ in set(params):
+            if re.search(r"::%s\b" % re.escape(p_), m.group(2)):
+                pat = re.escape(m.group(2)).replace(re.escape("::" + p_), "::(.+?)")
+                if re.fullmatch(pat, m.group(1)):
+                    return "RenamingVisibleThroughCapturedQualifiedArg"
     return ""
 
 
